@@ -22,11 +22,12 @@ EXTENDS Integers, Sequences, FiniteSets, TLC
 CONSTANTS WebFirst      \* mechanism switch: the gRPC-web prefix is tested before the gRPC prefix (TRUE: the code since fix F37;
                         \* FALSE: the pinned order, kept as vacuity guard Entry_Neg_GrpcFirst)
 
-CTs == {"grpc", "grpc+proto", "grpc+json", "grpc+zz", "grpcx",
-        "web", "web+json", "webtext", "webtext+json", "web+zz", "webx",
+\* ("+body" names the internal HttpBody chunk codec, which is not a message codec: it must be refused like "+zz")
+CTs == {"grpc", "grpc+proto", "grpc+json", "grpc+zz", "grpc+body", "grpcx",
+        "web", "web+json", "webtext", "webtext+json", "web+zz", "web+body", "webx",
         "json", "proto", "none", "junk"}
-IsWebCT(ct)  == ct \in {"web", "web+json", "webtext", "webtext+json", "web+zz", "webx"}      \* prefix application/grpc-web
-IsGrpcCT(ct) == IsWebCT(ct) \/ ct \in {"grpc", "grpc+proto", "grpc+json", "grpc+zz", "grpcx"} \* prefix application/grpc
+IsWebCT(ct)  == ct \in {"web", "web+json", "webtext", "webtext+json", "web+zz", "web+body", "webx"}      \* prefix application/grpc-web
+IsGrpcCT(ct) == IsWebCT(ct) \/ ct \in {"grpc", "grpc+proto", "grpc+json", "grpc+zz", "grpc+body", "grpcx"} \* prefix application/grpc
 \* what strings.Cut(ct, "+") gives
 TypOK(ct)    == ct \notin {"grpcx", "webx"}            \* the part before "+" is exactly a protocol name
 SubCodec(ct) == CASE ct \in {"grpc", "grpc+proto", "web", "webtext"} -> "proto"
